@@ -7,7 +7,22 @@ def kernel(pkg, inject, test, level, tiers, **kw):
     d.update(kw)
     return d
 
+PMM_COMMON = {"harness/pmm/vf_common_test.go": K + "mm/pmm/zz_verif_common_test.go"}
+
+def pmm(files, **kw):
+    d = dict(PMM_COMMON)
+    for f in files:
+        d["harness/pmm/" + f] = K + "mm/pmm/zz_verif_" + f
+    return d
+
 CHECKS = {
+    "C01": kernel("mm/pmm", pmm(["c01c03_test.go"]), "TestVerifPMM", "model_checking",
+                  {"quick": dict(shards=16, timeout=600), "thorough": dict(shards=16, timeout=3000)},
+                  assumptions=["memory maps are built from a finite shape alphabet (see coverage.bound); frames are never dereferenced, so only frame numbers matter",
+                               "frees of frames that are reserved but were never handed out (kernel image, early-boot frames) are outside the alphabet: neither C01 nor C03 defines them"]),
+    "C03": kernel("mm/pmm", pmm(["c01c03_test.go"]), "TestVerifPMM", "model_checking",
+                  {"quick": dict(shards=16, timeout=600), "thorough": dict(shards=16, timeout=3000)},
+                  assumptions=["same exploration as C01 with the accounting / error-contract oracles"]),
     "C07": kernel("mm/vmm", {"harness/c07/c07_test.go": K + "mm/vmm/zz_verif_c07_test.go"}, "TestVerifC07", "model_checking",
                   {"quick": dict(shards=4, timeout=300), "thorough": dict(shards=4, timeout=1200)},
                   assumptions=["sizes are drawn from a 16-value alphabet relative to the current cursor (0, 1, page-1, page, page+1, 3 pages, cursor-page, cursor-1, cursor, cursor+1, cursor+page, 2^63, 2^64-4096, 2^64-4095, 2^64-101, 2^64-1)",
